@@ -14,6 +14,8 @@
 """This module contains a compiler that merges Gaussian operations into their symplectic forms,
 in a Gaussian and non-Gaussian circuit."""
 
+import networkx as nx
+
 import strawberryfields.program_utils as pu
 
 from .compiler import Compiler
@@ -322,9 +324,32 @@ class GaussianMerge(Compiler):
                         merged_gaussian_ops.append(predecessor)
 
         merged_gaussian_ops = self.remove_invalid_operations(op, merged_gaussian_ops)
+        merged_gaussian_ops = self.remove_non_convex_operations(op, merged_gaussian_ops)
 
         if self.is_redundant_merge(op, merged_gaussian_ops):
             return []
+        return merged_gaussian_ops
+
+    def remove_non_convex_operations(self, op, merged_gaussian_ops):
+        """
+        Helper function that removes operations from merged_gaussian_ops if they depend, through an operation
+        that is not merged, on an operation that is: merging them would move them in front of that operation.
+        E.X  MZ | q[0],q[1] -> D | q[0] -> BS | q[0],q[2] -> BS | q[0],q[1]: the last BS is a direct successor
+        of the MZ (via q[1]) but cannot be merged with it unless BS | q[0],q[2] is merged as well.
+        """
+        removed = True
+        while removed:
+            removed = False
+            block = [op] + merged_gaussian_ops
+            downstream = set().union(*(nx.descendants(self.DAG, gate) for gate in block))
+            for gaussian_op in merged_gaussian_ops:
+                if any(
+                    pre not in block and pre in downstream
+                    for pre in self.DAG.predecessors(gaussian_op)
+                ):
+                    merged_gaussian_ops.remove(gaussian_op)
+                    removed = True
+                    break
         return merged_gaussian_ops
 
     def is_redundant_merge(self, op, merged_gaussian_ops):
